@@ -302,8 +302,32 @@ func apiCase(w *gal.Writer, wd *world, class string, lockRuns int) {
 		}
 		res = "(Some " + gal.List(it) + ")"
 	}
-	term := fmt.Sprintf("{| e_originals := %s; e_resolution := %s; e_lock_runs := %s; e_relock := %s; e_index_relock := %s |}",
-		gal.StrList(sc.World), res, gal.List(runs), relock, indexRe)
+	var uit []string
+	for _, a := range sc.Archs {
+		var cs []string
+		for _, p := range sc.Pkgs {
+			on := false
+			for _, pa := range p.Archs {
+				on = on || pa == a
+			}
+			if !on {
+				continue
+			}
+			prov := p.Provides
+			if o, ok := p.ProvidesOn[a]; ok {
+				prov = o
+			}
+			pin := ""
+			if p.Edge {
+				pin = "edge"
+			}
+			cs = append(cs, fmt.Sprintf("{| k_name := %s; k_version := %s; k_provides := %s; k_deps := %s; k_pinned := %s; k_dq := false |}",
+				gal.Str(p.Name), gal.Str(p.Version), gal.StrList(prov), gal.StrList(p.Deps), gal.Str(pin)))
+		}
+		uit = append(uit, gal.Pair(gal.Str(types.ParseArchitecture(a).String()), gal.List(cs)))
+	}
+	term := fmt.Sprintf("{| e_originals := %s; e_resolution := %s; e_lock_runs := %s; e_relock := %s; e_index_relock := %s; e_universe := %s |}",
+		gal.StrList(sc.World), res, gal.List(runs), relock, indexRe, gal.List(uit))
 	w.Add(gal.Case{Term: term, Class: class + "/lock=" + first.Kind, Trivial: len(sc.Archs) < 2, Key: term, Desc: d})
 }
 
@@ -728,6 +752,9 @@ func corpusScenarios() []scenario {
 			{Name: "a", Version: "1.0-r0", Archs: both(), Deps: []string{"b"}},
 			{Name: "b", Version: "1.0-r0", Archs: both()},
 			{Name: "q", Version: "5.0-r0", Archs: both(), Provides: []string{"b", "zz=1.0-r0"}}}},
+		{Name: "lock-entry-answered-by-other-provider", Archs: []string{X, Y, Zr}, World: []string{"n1"}, Pkgs: []pspec{
+			{Name: "n1", Version: "1.0-r0", Archs: []string{X, Y, Zr}},
+			{Name: "n2", Version: "2.0-r0", Archs: both(), Provides: []string{"n1=1.0-r0"}}}},
 		{Name: "diamond", Archs: both(), World: []string{"a", "e"}, Pkgs: []pspec{
 			{Name: "a", Version: "1.0-r0", Archs: both(), Deps: []string{"b", "c"}}, {Name: "b", Version: "1.0-r0", Archs: both(), Deps: []string{"d>=1"}},
 			{Name: "c", Version: "1.0-r0", Archs: both(), Deps: []string{"d<3"}}, {Name: "d", Version: "1.0-r0", Archs: both()}, {Name: "d", Version: "2.0-r0", Archs: both()},
